@@ -67,6 +67,8 @@ pub struct EncRec {
     pub secret: Secret<32>,
     pub ver: u64,
     pub probe: bool,
+    /// DNF the encapsulation was made for (null for re-encapsulations)
+    pub pol: Value,
 }
 
 pub struct World {
@@ -394,7 +396,7 @@ impl World {
                                     ev["encv"] = self.ren.rename(&v);
                                     ev["enc_len"] = json!(enc.serialize().map(|b| b.len()).unwrap_or(0));
                                     let ver = self.bump();
-                                    self.encs.insert(e, EncRec { enc, secret, ver, probe: op["probe"].as_bool().unwrap_or(false) });
+                                    self.encs.insert(e, EncRec { enc, secret, ver, probe: op["probe"].as_bool().unwrap_or(false), pol: op["pol"].clone() });
                                 }
                                 Err(e) => set_res(&mut ev, &Err(e)),
                             }
@@ -485,7 +487,7 @@ impl World {
                             ev["encv"] = self.ren.rename(&v);
                             ev["same_secret"] = json!(secret == self.encs[&from].secret);
                             let ver = self.bump();
-                            self.encs.insert(e, EncRec { enc, secret, ver, probe: false });
+                            self.encs.insert(e, EncRec { enc, secret, ver, probe: false, pol: Value::Null });
                         }
                         Err(e) => set_res(&mut ev, &Err(e)),
                     }
